@@ -1,6 +1,7 @@
 //! Correspondence harness: runs the real contracts / types of /repo and writes one line per case.
 mod integer;
 mod rng;
+mod pricefeed_unit;
 mod stats;
 mod vamm_unit;
 
@@ -29,6 +30,7 @@ fn main() {
     match mode.as_str() {
         "integer" => integer::run(seed, count, &mut out, &mut st),
         "vamm" => vamm_unit::run(seed, count, &mut out, &mut st),
+        "pricefeed" => pricefeed_unit::run(seed, count, &mut out, &mut st),
         "replay" => {
             let input = std::fs::read_to_string(arg(&args, "--in").expect("--in FILE")).unwrap();
             for line in input.lines() {
